@@ -249,6 +249,10 @@ def write_targets(prog, tn, depth=2):
     return out
 
 
+# (multiline, comments, base, digit grouping): the option sets doc/text-format.md / cpp-reference.md document as re-readable
+TEXT_OPTS = [(0, 0, 10, 0), (0, 0, 16, 0), (0, 0, 2, 1), (0, 0, 10, 1), (1, 0, 10, 0), (1, 0, 16, 1), (1, 1, 10, 0), (1, 1, 16, 0), (1, 1, 2, 1), (1, 1, 10, 1)]
+
+
 def gen_replay_driver(prog, header, structs, with_equals=True):
     """structs: [{"t": name, "targets": write_targets(...)}]; struct index in the command file = position."""
     j = prog.to_json() if isinstance(prog, vp.Program) else prog
@@ -260,10 +264,20 @@ struct Reader {
   bool next() { return std::fscanf(f, "%63s", tok) == 1; }
   long long num() { long long v = 0; if (std::fscanf(f, "%lld", &v) != 1) std::exit(4); return v; }
 };
+static ::emboss::TextOutputOptions text_opt(int k) {
+  // k = 1.. : see harness/view_driver.TEXT_OPTS
+  static const int tbl[][4] = {TEXT_OPTS_TABLE};
+  ::emboss::TextOutputOptions o;
+  if (tbl[k - 1][0]) o = ::emboss::MultilineText();
+  return o.WithComments(tbl[k - 1][1] != 0).WithNumericBase(static_cast<std::uint8_t>(tbl[k - 1][2])).WithDigitGrouping(tbl[k - 1][3] != 0);
+}
+static void print_chars(FILE *f, const std::string &s) {
+  std::fputc('[', f); for (size_t i = 0; i < s.size(); ++i) std::fprintf(f, "%s%d", i ? "," : "", (int)(unsigned char)s[i]); std::fputc(']', f);
+}
 static void print_bytes(FILE *f, const unsigned char *p, size_t n) {
   std::fputc('[', f); for (size_t i = 0; i < n; ++i) std::fprintf(f, "%s%d", i ? "," : "", (int)p[i]); std::fputc(']', f);
 }
-''')
+'''.replace("TEXT_OPTS_TABLE", ", ".join("{%d,%d,%d,%d}" % o for o in TEXT_OPTS)))
     for si, S in enumerate(structs):
         tn = S["t"]
         T = j["types"][tn]
@@ -320,6 +334,12 @@ static void print_bytes(FILE *f, const unsigned char *p, size_t n) {
         src.append("      int dst = (int)in.num(); int ok = VIEW(dst).TryToCopyFrom(VIEW(3 - dst));")
         src.append('      std::fprintf(f, "{\\"e\\":\\"cp\\",\\"dst\\":%d,\\"ok\\":%d,\\"after\\":", dst, ok); print_bytes(f, mem, n);')
         src.append('      std::fprintf(f, ",\\"o\\":["); { Out o{f, true}; %s(VIEW(dst), "", o); } std::fprintf(f, "]}");' % _obs_fn_name(tn))
+        src.append("    } else if (c == 'X') {")
+        src.append("      int oi = (int)in.num(); auto va = VIEW(1); int skipped = !va.Ok(); std::string s; int upd = 0;")
+        src.append("      unsigned char *z = static_cast<unsigned char *>(std::calloc(wl[1] ? wl[1] : 1, 1));")
+        src.append("      if (!skipped) { s = ::emboss::WriteToString(va, text_opt(oi)); auto vz = %s::Make%sView(%sz, wl[1]); upd = ::emboss::UpdateFromText(vz, s); }" % (ns, tn, pargs))
+        src.append('      std::fprintf(f, "{\\"e\\":\\"text\\",\\"opt\\":%d,\\"skipped\\":%d,\\"upd\\":%d,\\"text\\":", oi, skipped, upd); print_chars(f, s);')
+        src.append('      std::fprintf(f, ",\\"z\\":"); print_bytes(f, z, wl[1]); std::fprintf(f, "}"); std::free(z);')
         src.append("    } else { std::exit(6); }")
         src.append("    #undef VIEW")
         src.append("  }")
